@@ -22,6 +22,8 @@ pub fn user_trees(d: usize) -> Vec<TSpec> {
         vec![
             // partial: defined only for y <= 1
             TSpec::Dec(r1(&[1.0], 1.0), vec![None, Some(TSpec::Leaf(r1(&[2.0], 0.0)))]),
+            // partial and nested: a single-child decision above a full decision (y <= 2 ? (y <= 0 ? -y : y) : undefined)
+            TSpec::Dec(r1(&[1.0], 2.0), vec![None, Some(TSpec::Dec(r1(&[1.0], 0.0), vec![Some(TSpec::Leaf(r1(&[1.0], 0.0))), Some(TSpec::Leaf(r1(&[-1.0], 0.0)))]))]),
             // partial: defined only for y > 0 (the only child hangs on label 0)
             TSpec::Dec(r1(&[1.0], 0.0), vec![Some(TSpec::Leaf(r1(&[1.0], 1.0))), None]),
             // y <= 0 ? (y >= -1 ? y : -1) : 3
@@ -34,6 +36,7 @@ pub fn user_trees(d: usize) -> Vec<TSpec> {
         vec![
             TSpec::Dec(r1(&[1.0, -1.0], 0.0), vec![None, Some(TSpec::Leaf(Aff::identity(2)))]),
             TSpec::Dec(r1(&[1.0, 0.0], 1.0), vec![Some(TSpec::Leaf(Aff::identity(2))), None]),
+            TSpec::Dec(r1(&[0.0, 1.0], 2.0), vec![None, Some(TSpec::Dec(r1(&[1.0, 0.0], 0.0), vec![Some(TSpec::Leaf(Aff::identity(2))), Some(TSpec::Leaf(Aff::new(vec![vec![-1.0, 0.0], vec![0.0, 1.0]], vec![0.0, 0.0])))]))]),
             TSpec::Dec(
                 r1(&[1.0, 0.0], 0.0),
                 vec![Some(TSpec::Leaf(Aff::new(vec![vec![0.0, 1.0], vec![1.0, 0.0]], vec![0.0, 0.0]))), Some(TSpec::Dec(r1(&[0.0, 1.0], 0.0), vec![None, Some(TSpec::Leaf(Aff::identity(2)))]))],
@@ -100,7 +103,7 @@ pub fn inits(tier: Tier) -> Vec<Init> {
         max_nodes: if tier == Tier::Quick { 7 } else { 9 },
         partial: true,
     };
-    let keep = if tier == Tier::Quick { 181 } else { 23 };
+    let keep = if tier == Tier::Quick { 331 } else { 23 };
     for (i, t) in g1.all().into_iter().enumerate() {
         if t.n_nodes() <= 3 || i % keep == 0 {
             v.push(Init::Spec(t));
@@ -114,7 +117,7 @@ pub fn inits(tier: Tier) -> Vec<Init> {
         max_nodes: if tier == Tier::Quick { 7 } else { 9 },
         partial: true,
     };
-    let keep2 = if tier == Tier::Quick { 389 } else { 53 };
+    let keep2 = if tier == Tier::Quick { 701 } else { 53 };
     for (i, t) in g2.all().into_iter().enumerate() {
         if t.n_nodes() <= 3 || i % keep2 == 0 {
             v.push(Init::Spec(t));
